@@ -145,6 +145,32 @@ fn seal(n_blocks: usize, v_auth: u32, v_b1: u32, p256_secret: bool) {
     std::mem::forget(t);
 }
 
+/// seal when the last block is a third-party block: the seal payload is still
+/// data ++ algorithm ++ next key ++ signature (the external signature is NOT part of it)
+fn seal_after_third_party() {
+    let authority = any_block(0, false, false);
+    let blocks = vec![any_block(1, true, false)];
+    let t = SerializedBiscuit { root_key_id: kani::any(), authority, blocks, proof: TokenNext::Secret(any_private(false)) };
+    oracle::switch_on();
+    let signer_public = match &t.proof {
+        TokenNext::Secret(p) => p.public(),
+        TokenNext::Seal(_) => unreachable!(),
+    };
+    let r = t.seal();
+    let ok = r.is_ok();
+    kani::cover!(ok, "witness: the token was sealed");
+    assert!(ok, "sealing an unsealed container fails");
+    if let Ok(r) = &r {
+        assert!(oracle::n_sign() == 1, "seal signs more or less than one message");
+        let q = oracle::sign_query(0);
+        assert!(q.msg == spec_seal_payload(&t.blocks[0]), "the seal does not cover exactly the last block's payload, next key and signature");
+        assert!(q.key == signer_public, "the seal is not made with the proof secret");
+        assert!(r.blocks.len() == 1 && same_block(&r.authority, &t.authority) && same_block(&r.blocks[0], &t.blocks[0]), "seal changed the blocks");
+    }
+    std::mem::forget(r);
+    std::mem::forget(t);
+}
+
 fn sealed_refuses(n_blocks: usize) {
     let t = base(n_blocks, 1, 1, true, false);
     let next = any_keypair(false);
@@ -196,6 +222,7 @@ h!(c02_append_after_block_v1_v0, append(1, 1, 0, false, false, false));
 h!(c02_append_third_party_after_block, append(1, 0, 0, true, false, false));
 h!(c02_append_p256_secret, append(1, 0, 0, false, false, true));
 h!(c02_seal_after_block, seal(1, 0, 1, false));
+h!(c02_seal_after_third_party_block, seal_after_third_party());
 h!(c08_sealed_refuses_authority_only, sealed_refuses(0));
 h!(c08_sealed_refuses_with_block, sealed_refuses(1));
 h!(c07_request_authority_only, third_party_request(0));
@@ -297,6 +324,8 @@ fn append_datalog_block(v_auth: u32, v_b1: u32) {
 }
 h!(c02_append_datalog_block_v0_v0, append_datalog_block(0, 0));
 h!(c02_append_datalog_block_v0_v1, append_datalog_block(0, 1));
+// the authority block's signature version is part of the history ("never switch back"): seeded change C16-r4m1
+h!(c02_append_datalog_block_v1_v0, append_datalog_block(1, 0));
 
 /// `SerializedBiscuit::new`: the signature version of the first block follows the ROOT key's
 /// algorithm, the next key's algorithm and the block's Datalog version
